@@ -1,0 +1,193 @@
+//go:build verif
+
+package immutable
+
+import (
+	"fmt"
+	"hash/fnv"
+	"math/bits"
+
+	"github.com/csgura/fp"
+)
+
+// This file exists only under the verif build tag. It lets the deterministic simulator in
+// /verif check the structural invariants of the hash array mapped trie and measure which node
+// kinds a run reached. It adds no behaviour to the package.
+
+// VerifCensus counts what a trie is made of.
+type VerifCensus struct {
+	Foreign    bool // the base is not this package's trie (e.g. the zero-value route through UnsafeGoMap)
+	Entries    int
+	Array      int
+	Bitmap     int
+	HashArray  int
+	Value      int
+	Collision  int
+	MaxDepth   int
+	Structural uint64 // content fingerprint of the whole trie (node kinds, bitmaps, keys, values)
+}
+
+// VerifCheck walks the trie behind base and checks: popcount(bitmap) == len(nodes) and no nil child;
+// hash-array count == number of non-nil slots; collision nodes hold >= 2 entries with one hash and
+// pairwise non-Eqv keys; array nodes hold >= 1 pairwise non-Eqv keys; every leaf is stored under the
+// path its own hash selects; size == number of reachable entries.
+func VerifCheck[K, V any](base fp.MapBase[K, V]) (VerifCensus, error) {
+	var c VerifCensus
+	if base == nil {
+		return c, nil
+	}
+	m, ok := base.(*hamt[K, V])
+	if !ok {
+		c.Foreign = true
+		return c, nil
+	}
+	h := fnv.New64a()
+	if m.root == nil {
+		if m.size != 0 {
+			return c, fmt.Errorf("empty trie with size %d", m.size)
+		}
+		return c, nil
+	}
+	if m.hasher == nil {
+		return c, fmt.Errorf("trie without hasher")
+	}
+	if err := verifWalk[K, V](m.root, 0, 0, m.hasher, &c, 1, h); err != nil {
+		return c, err
+	}
+	if c.Entries != m.size {
+		return c, fmt.Errorf("size is %d but %d entries are reachable", m.size, c.Entries)
+	}
+	c.Structural = h.Sum64()
+	return c, nil
+}
+
+// VerifCheckSet is VerifCheck for a set of this package.
+func VerifCheckSet[T any](s fp.SetMinimal[T]) (VerifCensus, error) {
+	if s == nil {
+		return VerifCensus{}, nil
+	}
+	st, ok := s.(set[T])
+	if !ok {
+		return VerifCensus{Foreign: true}, nil
+	}
+	return VerifCheck[T, bool](st.m)
+}
+
+func verifLeafPath(hash uint32, shift uint, prefix uint32) error {
+	if shift == 0 {
+		return nil
+	}
+	mask := uint32(0xffffffff)
+	if shift < 32 {
+		mask = (uint32(1) << shift) - 1
+	}
+	if hash&mask != prefix&mask {
+		return fmt.Errorf("leaf with hash %#x stored under path prefix %#x (shift %d)", hash, prefix&mask, shift)
+	}
+	return nil
+}
+
+func verifWalk[K, V any](n mapNode[K, V], shift uint, prefix uint32, hs fp.Hashable[K], c *VerifCensus, depth int, h interface{ Write([]byte) (int, error) }) error {
+	if depth > c.MaxDepth {
+		c.MaxDepth = depth
+	}
+	if depth > 32 {
+		return fmt.Errorf("trie deeper than 32 levels (the iterator's stack)")
+	}
+	switch node := n.(type) {
+	case nil:
+		return fmt.Errorf("nil node inside the trie")
+	case *mapArrayNode[K, V]:
+		c.Array++
+		fmt.Fprintf(h, "A%d[", len(node.entries))
+		if len(node.entries) == 0 {
+			return fmt.Errorf("array node without entries")
+		}
+		for i := range node.entries {
+			for j := 0; j < i; j++ {
+				if hs.Eqv(node.entries[i].key, node.entries[j].key) {
+					return fmt.Errorf("array node holds the key %v twice", node.entries[i].key)
+				}
+			}
+			fmt.Fprintf(h, "%v=%v,", node.entries[i].key, node.entries[i].value)
+		}
+		c.Entries += len(node.entries)
+		fmt.Fprint(h, "]")
+	case *mapBitmapIndexedNode[K, V]:
+		c.Bitmap++
+		fmt.Fprintf(h, "B%x[", node.bitmap)
+		if bits.OnesCount32(node.bitmap) != len(node.nodes) {
+			return fmt.Errorf("bitmap node: popcount(%#x)=%d but %d children", node.bitmap, bits.OnesCount32(node.bitmap), len(node.nodes))
+		}
+		if len(node.nodes) == 0 {
+			return fmt.Errorf("bitmap node without children")
+		}
+		i := 0
+		for b := uint32(0); b < mapNodeSize; b++ {
+			if node.bitmap&(1<<b) == 0 {
+				continue
+			}
+			if err := verifWalk[K, V](node.nodes[i], shift+mapNodeBits, prefix|(b<<shift), hs, c, depth+1, h); err != nil {
+				return err
+			}
+			i++
+		}
+		fmt.Fprint(h, "]")
+	case *mapHashArrayNode[K, V]:
+		c.HashArray++
+		fmt.Fprint(h, "H[")
+		cnt := uint(0)
+		for b := uint32(0); b < mapNodeSize; b++ {
+			if node.nodes[b] == nil {
+				fmt.Fprint(h, "_")
+				continue
+			}
+			cnt++
+			if err := verifWalk[K, V](node.nodes[b], shift+mapNodeBits, prefix|(b<<shift), hs, c, depth+1, h); err != nil {
+				return err
+			}
+		}
+		if cnt != node.count {
+			return fmt.Errorf("hash-array node: count=%d but %d slots are set", node.count, cnt)
+		}
+		if cnt == 0 {
+			return fmt.Errorf("hash-array node without children")
+		}
+		fmt.Fprint(h, "]")
+	case *mapValueNode[K, V]:
+		c.Value++
+		c.Entries++
+		if got := hs.Hash(node.key); got != node.keyHash {
+			return fmt.Errorf("value node caches hash %#x for key %v whose hash is %#x", node.keyHash, node.key, got)
+		}
+		if err := verifLeafPath(node.keyHash, shift, prefix); err != nil {
+			return err
+		}
+		fmt.Fprintf(h, "V(%v=%v)", node.key, node.value)
+	case *mapHashCollisionNode[K, V]:
+		c.Collision++
+		c.Entries += len(node.entries)
+		fmt.Fprintf(h, "C%x[", node.keyHash)
+		if len(node.entries) < 2 {
+			return fmt.Errorf("collision node with %d entries", len(node.entries))
+		}
+		for i := range node.entries {
+			if got := hs.Hash(node.entries[i].key); got != node.keyHash {
+				return fmt.Errorf("collision node for hash %#x holds key %v whose hash is %#x", node.keyHash, node.entries[i].key, got)
+			}
+			for j := 0; j < i; j++ {
+				if hs.Eqv(node.entries[i].key, node.entries[j].key) {
+					return fmt.Errorf("collision node holds the key %v twice", node.entries[i].key)
+				}
+			}
+			fmt.Fprintf(h, "%v=%v,", node.entries[i].key, node.entries[i].value)
+		}
+		if err := verifLeafPath(node.keyHash, shift, prefix); err != nil {
+			return err
+		}
+		fmt.Fprint(h, "]")
+	default:
+		return fmt.Errorf("unknown node type %T", n)
+	}
+	return nil
+}
